@@ -75,7 +75,7 @@ int aggregate(ParCSRMatrix* A, ParCSRMatrix* S, std::vector<int>& states,
         if (S->on_proc->idx1[i+1] - S->on_proc->idx1[i] <= 1 
                    && S->off_proc->idx1[i+1] == S->off_proc->idx1[i])
         {
-            aggregates[i] = - A->partition->global_num_rows;
+            aggregates[i] = - (A->partition->global_num_rows + 2); // isolated: below every temporary label
         }
         else if (states[i] == Selected)
         {
@@ -138,7 +138,7 @@ int aggregate(ParCSRMatrix* A, ParCSRMatrix* S, std::vector<int>& states,
             end = S->on_proc->idx1[i+1];
             ctr = A->on_proc->idx1[i];
             max_val = 0.0;
-            max_agg = -A->partition->global_num_rows; 
+            max_agg = -1;
             for (j = start; j < end; j++)
             {
                 col = S->on_proc->idx2[j];
@@ -169,16 +169,16 @@ int aggregate(ParCSRMatrix* A, ParCSRMatrix* S, std::vector<int>& states,
                 }
             }
 
-            aggregates[i] = - (max_agg + 1);
+            if (max_agg >= 0) aggregates[i] = - (max_agg + 2); // temporary label in [-(N+1), -2]
         }
     }
 
     for (int i = 0; i < S->local_num_rows; i++)
     {
-        if (aggregates[i] <= -A->partition->global_num_rows)
+        if (aggregates[i] <= -(A->partition->global_num_rows + 2))
             aggregates[i] = -1;
-        else if (aggregates[i] < 0)
-            aggregates[i] = - (aggregates[i] + 1);
+        else if (aggregates[i] < -1)
+            aggregates[i] = - (aggregates[i] + 2);
     }
 
     return n_aggs;
